@@ -592,12 +592,13 @@ def merge_stats(all_stats):
 
 
 def write_evidence(prop, tier, seed, level, coverage, assumptions, wall, violations):
-    os.makedirs(os.path.join(VERIF, 'evidence'), exist_ok=True)
+    evdir = os.environ.get('VERIF_EVIDENCE_DIR') or os.path.join(VERIF, 'evidence')   # override: mutation/sensitivity runs only (tools/sens.sh)
+    os.makedirs(evdir, exist_ok=True)
     ev = dict(property_id=prop, tier=tier, seed=seed, level=level, coverage=coverage, assumptions=assumptions,
               wall_s=round(wall, 2), violations=violations)
-    tmp = os.path.join(VERIF, 'evidence', prop + '.json.tmp')
+    tmp = os.path.join(evdir, prop + '.json.tmp')
     json.dump(ev, open(tmp, 'w'), indent=1)
-    os.replace(tmp, os.path.join(VERIF, 'evidence', prop + '.json'))
+    os.replace(tmp, os.path.join(evdir, prop + '.json'))
 
 
 def run_check(prop, tier, seed):
